@@ -15,7 +15,7 @@ from common import Ctx, Counters, Failure, confirm, main_wrapper, run_workers, l
 
 PID = "C17"
 RULE = ("(a) traced single calls: record sizes (message + newline, so >= 2 bytes) from boundary sets (2, 4095/4096/4097, 8191/8192, 16383/16384/16385, 65536, 131072, "
-        "1048575, +-1) and seeded random sizes x pre-existing file states (absent, empty, no final newline, 1 MiB, path being a symbolic link to the file, dangling link) x outputs file / "
+        "1048575, +-1) and seeded random sizes x pre-existing file states (absent, empty, no final newline, 1 MiB, path being a symbolic link to the file, dangling link, file owned by somebody else than the caller) x outputs file / "
         "file with path template / devtty / devnull; from the syscall log: the log descriptor is opened with O_APPEND and without "
         "O_TRUNC, exactly one data-transferring call is made on it whose size is the whole record, no ftruncate / positional write, and the "
         "file afterwards is old content + record. (b) stress: 2..16 concurrent writers (processes x threads) append uniquely "
@@ -24,7 +24,7 @@ RULE = ("(a) traced single calls: record sizes (message + newline, so >= 2 bytes
         "(a) = record > 4096 bytes or pre-existing content without final newline or file absent; distinct by (size, state, output)")
 
 SIZES = [2, 3, 100, 4094, 4095, 4096, 4097, 8191, 8192, 8193, 16382, 16383, 16384, 16385, 20000, 65535, 65536, 65537, 131072, 500000, 1048574, 1048575]
-STATES = ["absent", "empty", "nonl", "big", "lines", "symlink", "dangling-symlink"]
+STATES = ["absent", "empty", "nonl", "big", "lines", "symlink", "dangling-symlink", "foreign-owner"]
 DATA_CALLS = {"write", "writev", "pwrite64", "pwritev", "pwritev2", "sendto", "sendmsg", "sendfile", "splice"}
 # lseek on an O_APPEND descriptor is harmless (stdio's fopen("a") issues one) and therefore allowed
 FORBIDDEN = {"ftruncate", "pwrite64", "pwritev", "truncate", "fallocate"}
@@ -55,7 +55,8 @@ def run_single(os_, size, state, outk, shortwrite=False):
     old = None
     if outk in ("file", "filetpl"):
         old = {"absent": None, "empty": b"", "nonl": b"previous line without newline", "big": b"x" * 1048576 + b"\n",
-               "lines": b"l1\nl2\n", "symlink": b"first line\nsecond line\nthird\n", "dangling-symlink": None}[state]
+               "lines": b"l1\nl2\n", "symlink": b"first line\nsecond line\nthird\n", "dangling-symlink": None,
+               "foreign-owner": b"written by the owner\n"}[state]
         target = path
         for p_ in (path, path + ".target"):
             try:
@@ -76,6 +77,9 @@ def run_single(os_, size, state, outk, shortwrite=False):
     if outk == "devtty":
         ops += [drv.op("f"), drv.op("T")]
     ops += [drv.op("C", ini), drv.op_env([b"M=" + body])]
+    if state == "foreign-owner" and outk in ("file", "filetpl"):
+        # a shared log: owned by root, mode 0666; the call is made by an unprivileged user who does not own the file
+        ops.append(drv.op("U", 65534, 65534, 65534, 65534, 65534, 65534))
     if shortwrite:
         # a genuine short write: the size limit lies in the middle of the record (the result file is written first: it is tiny)
         ops.append(drv.op("l", len(old or b"") + max(1, (msglen + 1) // 2)))
@@ -307,7 +311,7 @@ def main():
     for _ in range(40 if ctx.quick else 600):
         jobs.append((rng.choice([rng.randint(1, 9000), rng.randint(1, 1048575), rng.choice(SIZES) + rng.choice([-1, 0, 1])]), rng.choice(STATES), "file"))
     jobs = [(max(2, min(s, 1048576)), st_, o) for s, st_, o in jobs]
-    jobs += [(100, "symlink", "file"), (4097, "symlink", "file"), (100, "dangling-symlink", "file")]
+    jobs += [(100, "symlink", "file"), (4097, "symlink", "file"), (100, "dangling-symlink", "file"), (100, "foreign-owner", "file"), (5000, "foreign-owner", "file")]
     for s_ in [100, 5000, 20000] if ctx.quick else [2, 100, 4097, 5000, 20000, 70000, 1048575]:
         jobs += [(s_, "lines", "file", "shortwrite"), (s_, "nonl", "file", "shortwrite")]
     nw = 16
